@@ -161,7 +161,7 @@ def _one(args):
         pass
     try:
         try:
-            ctx, _ = run_rules(prop, load_prop(prop).RULES, Model(ov), 'thorough')
+            ctx, _ = run_rules(prop, load_prop(prop).RULES, Model(ov), 'selftest')
         finally:
             try:
                 signal.alarm(0)
@@ -191,7 +191,7 @@ def run(prop, seed=0, jobs=16, base_keys=None):
     ms = load_mutants(prop) + seeded(prop) + refactors() + repairs()
     random.Random(seed).shuffle(ms)
     if base_keys is None:
-        ctx, _ = run_rules(prop, load_prop(prop).RULES, Model(SourceTree()), 'thorough')
+        ctx, _ = run_rules(prop, load_prop(prop).RULES, Model(SourceTree()), 'selftest')
         base_keys = {f.key for f in ctx.findings}
     res = []
     if ms:
